@@ -407,3 +407,254 @@ Proof.
         intros k0 [<-|Hin] Hk0; [congruence|now apply P2]. }
   destruct (G ids [] m (fun _ _ => I) H) as [_ P2]. now apply P2.
 Qed.
+
+(** * Names stay sorted *)
+Lemma nsorted_NoDup l : nsorted l -> NoDup l.
+Proof.
+  induction l as [|x t IH]; intros S; constructor.
+  - destruct S as [S1 _]. intros H. specialize (S1 x H). lia.
+  - apply IH. apply S.
+Qed.
+
+Lemma edit_wcs s ws c s' : edit s ws c = Some s' ->
+  v_wcs (s_v s') = aset N.eqb N.ltb ws c (v_wcs (s_v s)).
+Proof.
+  unfold edit. destruct (c =? 0); [discriminate|]. intros H.
+  assert (E : forall (a b : state), Some a = Some b -> a = b) by (intros a b E0; congruence).
+  apply E in H. subst s'. cbn [set_view s_v v_wcs].
+  destruct (add_heads_fields (maybe_abandon_wc_commit s ws) [c]) as [_ [_ [_ W]]].
+  now rewrite W, maybe_abandon_wcs.
+Qed.
+
+Lemma names_sorted_set_bookmark s name t : names_sorted s -> names_sorted (set_local_bookmark_target s name t).
+Proof.
+  intros [A B]. unfold names_sorted, set_local_bookmark_target. cbn [set_view s_v v_bms v_wcs].
+  destruct (fold_add_head_fields (added_ids t) (s_v s)) as [Eb [Ew _]]. rewrite Eb, Ew. split; [|assumption].
+  destruct (is_absent t); [now apply nadel_sorted|now apply naset_sorted].
+Qed.
+
+Lemma names_sorted_edit s ws c s' : names_sorted s -> edit s ws c = Some s' -> names_sorted s'.
+Proof.
+  intros [A B] H. unfold names_sorted. rewrite (edit_bms _ _ _ _ H), (edit_wcs _ _ _ _ H).
+  split; [assumption|now apply naset_sorted].
+Qed.
+
+Lemma names_sorted_update_local_bookmarks st mapping del st' :
+  names_sorted st -> update_local_bookmarks st mapping del = Ok st' -> names_sorted st'.
+Proof.
+  intros S H. unfold update_local_bookmarks in H.
+  refine (fold_res_inv (fun (s1 : state) (ch : N * nat * list nat) => _) names_sorted _ _ st st' S H).
+  intros a [[name old] nids] a' Sa _ Hf. cbv beta iota in Hf.
+  destruct (del && is_abandoned (pm_get (s_pm a) old)).
+  - apply Ok_inj in Hf. subst a'. now apply names_sorted_set_bookmark.
+  - destruct nids; [discriminate|]. apply Ok_inj in Hf. subst a'. now apply names_sorted_set_bookmark.
+Qed.
+
+Lemma names_sorted_update_wc_commits st mapping st' :
+  names_sorted st -> update_wc_commits st mapping = Ok st' -> names_sorted st'.
+Proof.
+  intros S H. rewrite update_wc_commits_eq in H.
+  match type of H with (do r <- fold_left _ ?l _; _) = _ => set (changed := l) in * end.
+  destruct (fold_left uwc_step changed (Ok (st, []))) as [[sf rec]| | |] eqn:F; cbn [bind] in H; try discriminate.
+  apply Ok_inj in H. cbn [fst] in H. subst st'.
+  unfold uwc_step in F.
+  refine (fold_res_inv (fun (sr : state * list (nat * nat)) (ch : N * nat * list nat) => _)
+            (fun sr => names_sorted (fst sr)) changed _ (st, []) (sf, rec) S F).
+  intros [a recr] [[ws oldc] nids] a' Sa _ Hf. cbn [fst snd] in *. cbv beta iota in Hf.
+  match type of Hf with (do sw <- ?X; _) = _ => destruct X as [[[s2 rec2] new_wc]| | |] eqn:EX end;
+    cbn [bind] in Hf; try discriminate.
+  assert (S2 : names_sorted s2).
+  { destruct (negb (is_abandoned (pm_get (s_pm a) oldc))).
+    - destruct nids; [discriminate|]. apply Ok_inj in EX. now injection EX as <- _ _.
+    - destruct (aget Nat.eqb oldc recr).
+      + apply Ok_inj in EX. now injection EX as <- _ _.
+      + destruct nids as [|n ns]; [discriminate|].
+        destruct (write_commit_view a (fresh_commit (s_g a) (n :: ns) 0 true) None) as [Eb [Ew _]].
+        destruct (write_commit a (fresh_commit (s_g a) (n :: ns) 0 true) None) as [sw nw] eqn:EW.
+        apply Ok_inj in EX. injection EX as <- _ _. cbn [fst] in *. unfold names_sorted. now rewrite Eb, Ew. }
+  destruct (edit s2 ws new_wc) as [s3|] eqn:EE; [|discriminate]. apply Ok_inj in Hf. subst a'. cbn [fst].
+  eapply names_sorted_edit; eassumption.
+Qed.
+
+(** * After the reference updates no reference sits on a commit with a rewrite record *)
+Theorem refs_clear_after ord s o sB :
+  J s -> bms_odd s -> names_sorted s ->
+  rebase_before_heads ord s o = Ok sB -> refs_clear sB /\ names_sorted sB.
+Proof.
+  intros Js Os Ns H. unfold rebase_before_heads in H.
+  destruct (rebase_loop_with ord s o) as [s1| | |] eqn:EL; cbn [bind] in H; try discriminate.
+  destruct (resolve_rewrite_mapping (s_pm s1) (fun _ => true)) as [mapping| | |] eqn:EM; cbn [bind] in H; try discriminate.
+  destruct (update_local_bookmarks s1 mapping (o_delete_abandoned o)) as [sA| | |] eqn:EA; cbn [bind] in H; try discriminate.
+  rename H into EB.
+  pose proof (J_rebase_loop ord s o s1 Js EL) as J1.
+  assert (L1 : v_bms (s_v s1) = v_bms (s_v s) /\ v_wcs (s_v s1) = v_wcs (s_v s)).
+  { unfold rebase_loop_with in EL. destruct (ord _ _ _) as [order| | |]; cbn [bind] in EL; try discriminate.
+    split; [eapply rebase_fold_bms|eapply rebase_fold_wcs]; eassumption. }
+  destruct L1 as [B1 W1].
+  assert (O1 : bms_odd s1) by (unfold bms_odd; rewrite B1; exact Os).
+  assert (N1 : names_sorted s1) by (unfold names_sorted; rewrite B1, W1; exact Ns).
+  pose proof (names_sorted_update_local_bookmarks _ _ _ _ N1 EA) as NA.
+  pose proof (names_sorted_update_wc_commits _ _ _ NA EB) as NB.
+  split; [|exact NB].
+  destruct (update_local_bookmarks_fields _ _ _ _ EA) as [WA [PA GA]].
+  (* facts about the mapping *)
+  assert (Mdom : forall k nids, aget Nat.eqb k mapping = Some nids -> pm_get (s_pm s1) k <> None).
+  { intros k nids Hk. destruct (resolve_mapping_spec _ _ _ EM k nids Hk) as [Kk _].
+    unfold pm_filtered in Kk. destruct (pm_get (s_pm s1) k); [discriminate|congruence]. }
+  assert (Mcomp : forall k, pm_get (s_pm s1) k <> None -> aget Nat.eqb k mapping <> None).
+  { intros k Hk. apply (resolve_mapping_complete _ _ _ k EM).
+    - apply In_pm_keys_get. destruct (pm_get (s_pm s1) k); [eauto|congruence].
+    - unfold pm_filtered. destruct (pm_get (s_pm s1) k); [discriminate|congruence]. }
+  assert (Mvals : forall k nids z, aget Nat.eqb k mapping = Some nids -> In z nids -> aget Nat.eqb z mapping = None).
+  { intros k nids z Hk Hz. destruct (resolve_mapping_spec _ _ _ EM k nids Hk) as [_ R].
+    destruct (rewritten_ids_with_result _ _ _ _ R) as [_ F]. destruct (F z Hz) as [Fz _].
+    destruct (aget Nat.eqb z mapping) as [nz|] eqn:Ez; [|reflexivity]. exfalso.
+    apply (Mdom z nz Ez). unfold pm_filtered in Fz. destruct (pm_get (s_pm s1) z); [discriminate|reflexivity]. }
+  assert (Krange : forall k, pm_get (s_pm s1) k <> None -> k < length (s_g s1)).
+  { intros k Hk. destruct (pm_get (s_pm s1) k) as [r|] eqn:G; [|congruence]. apply pm_get_In in G.
+    destruct (j_pm _ J1 k r G) as [A _]. exact A. }
+  (* the working-copy fold *)
+  rewrite update_wc_commits_eq in EB.
+  set (F := fun p : N * nat => match aget Nat.eqb (snd p) mapping with
+                                | Some nids => [(fst p, snd p, nids)]
+                                | None => []
+                                end) in *.
+  destruct (fold_left uwc_step (flat_map F (v_wcs (s_v sA))) (Ok (sA, []))) as [[sf rec]| | |] eqn:EF;
+    cbn [bind] in EB; try discriminate.
+  apply Ok_inj in EB. cbn [fst] in EB. subst sB.
+  destruct NA as [NAb NAw].
+  assert (NDw : NoDup (map fst (v_wcs (s_v sA)))) by now apply nsorted_NoDup.
+  assert (HMl : forall ws k nids, In (ws, k, nids) (flat_map F (v_wcs (s_v sA))) ->
+                  aget Nat.eqb k mapping = Some nids /\ In (ws, k) (v_wcs (s_v sA))).
+  { intros ws k nids Hin. apply in_flat_map in Hin. destruct Hin as [[w c] [Hin1 Hin2]]. unfold F in Hin2.
+    cbn [fst snd] in Hin2. destruct (aget Nat.eqb c mapping) eqn:E; [|contradiction].
+    destruct Hin2 as [Hin2|[]]. injection Hin2 as <- <- <-. auto. }
+  assert (NDl : NoDup (map (fun x : N * nat * list nat => fst (fst x)) (flat_map F (v_wcs (s_v sA))))).
+  { clear -NDw. induction (v_wcs (s_v sA)) as [|[a b] l IH]; [constructor|].
+    cbn [map fst] in NDw. inversion NDw as [|? ? Hn Hd]; subst. cbn [flat_map]. unfold F at 1. cbn [fst snd].
+    destruct (aget Nat.eqb b mapping); [|now apply IH]. cbn [app map fst]. constructor; [|now apply IH].
+    intros Hin. apply in_map_iff in Hin. destruct Hin as [[[w k] n] [E Hin]]. cbn [fst] in E. subst w.
+    apply in_flat_map in Hin. destruct Hin as [[w c] [Hin1 Hin2]]. unfold F in Hin2. cbn [fst snd] in Hin2.
+    destruct (aget Nat.eqb c mapping); [|contradiction]. destruct Hin2 as [Hin2|[]]. injection Hin2 as -> _ _.
+    apply Hn. apply in_map_iff. exists (a, c). auto. }
+  assert (HP : forall ws k nids, In (ws, k, nids) (flat_map F (v_wcs (s_v sA))) -> wc_get (s_v sA) ws = Some k).
+  { intros ws k nids Hin. unfold wc_get. apply nsorted_get; [assumption|]. apply (HMl _ _ _ Hin). }
+  destruct (uwc_fold mapping (length (s_g sA)) _ sA [] sf rec (fun a b c Hi => proj1 (HMl a b c Hi)) NDl
+              (fun k c Hc => ltac:(discriminate)) (le_n _) HP EF) as [HR [L [Oo [Wn [_ [PM Fo]]]]]].
+  (* keys do not grow *)
+  assert (Kf : forall c, pm_get (s_pm sf) c <> None -> pm_get (s_pm s1) c <> None).
+  { intros c Hc. destruct (PM c) as [Q|[w [n Q]]].
+    - rewrite Q, PA in Hc. exact Hc.
+    - apply (Mdom c n). apply (HMl _ _ _ Q). }
+  assert (Bf : v_bms (s_v sf) = v_bms (s_v sA)).
+  { assert (EBB : update_wc_commits sA mapping = Ok sf).
+    { rewrite update_wc_commits_eq. fold F. rewrite EF. reflexivity. }
+    now apply update_wc_commits_bms in EBB. }
+  split.
+  - intros name t c Hb Hc. rewrite Bf in Hb.
+    destruct (pm_get (s_pm sf) c) eqn:Gc; [|reflexivity]. exfalso.
+    assert (K1 : pm_get (s_pm s1) c <> None) by (apply Kf; congruence).
+    assert (Et : bm_get (s_v sA) name = t).
+    { unfold bm_get. now rewrite (nsorted_get name t _ NAb Hb). }
+    apply (update_local_bookmarks_clear mapping Mvals _ s1 sA O1 EA name c (Mcomp c K1)).
+    now rewrite Et.
+  - intros ws c Hw.
+    destruct NB as [_ NBw].
+    assert (Gw : wc_get (s_v sf) ws = Some c) by (unfold wc_get; now apply nsorted_get).
+    destruct (pm_get (s_pm sf) c) eqn:Gc; [|reflexivity]. exfalso.
+    assert (K1 : pm_get (s_pm s1) c <> None) by (apply Kf; congruence).
+    assert (Kdom : aget Nat.eqb c mapping <> None) by now apply Mcomp.
+    destruct (in_dec N.eq_dec ws (map (fun x : N * nat * list nat => fst (fst x)) (flat_map F (v_wcs (s_v sA))))) as [I|I].
+    + apply in_map_iff in I. destruct I as [[[w k] n] [E I]]. cbn [fst] in E. subst w.
+      destruct (Fo ws k n I) as [c' [A B]]. rewrite Gw in A. injection A as <-.
+      destruct (is_abandoned (pm_get (s_pm sA) k)).
+      * destruct (HR k c B) as [[Lc _] _]. apply Krange in K1. rewrite GA in Lc. lia.
+      * destruct (HMl _ _ _ I) as [Mk _]. destruct n as [|z zs]; cbn [hd] in B.
+        -- destruct (resolve_mapping_spec _ _ _ EM k [] Mk) as [_ R].
+           destruct (rewritten_ids_with_result _ _ _ _ R) as [NE _]. congruence.
+        -- subst c. apply Kdom. eapply Mvals; [exact Mk|now left].
+    + rewrite (Wn ws I) in Gw. unfold wc_get in Gw. apply (aget_In N.eqb Neqb_spec) in Gw.
+      apply I. apply in_map_iff.
+      destruct (aget Nat.eqb c mapping) as [nc|] eqn:Ec; [|congruence].
+      exists (ws, c, nc). split; [reflexivity|]. apply in_flat_map. exists (ws, c). split; [assumption|].
+      unfold F. cbn [fst snd]. rewrite Ec. now left.
+Qed.
+
+(** * All operations, no guard on descendant rebasing *)
+Definition op_okb2 (s : state) (o : op) : bool :=
+  match o with
+  | OSetBookmark _ t => basic_op_okb s o && Nat.odd (length t)
+  | ORebase _ => true
+  | _ => basic_op_okb s o || record_op_okb s o
+  end.
+
+Lemma names_same s s' : v_bms (s_v s') = v_bms (s_v s) -> v_wcs (s_v s') = v_wcs (s_v s) ->
+  names_sorted s -> names_sorted s'.
+Proof. unfold names_sorted. intros -> ->. auto. Qed.
+
+Lemma step_names_basic s o s' : basic_op_okb s o = true -> names_sorted s -> step s o = Ok s' -> names_sorted s'.
+Proof.
+  intros G Ns H. destruct o; cbn [basic_op_okb] in G; try discriminate; cbn [step] in H.
+  - destruct ps; [discriminate|]. apply Ok_inj in H. subst s'.
+    apply (names_same s); [apply write_commit_view|apply write_commit_view|assumption].
+  - apply Ok_inj in H. subst s'. apply (names_same s); [apply add_heads_fields|apply add_heads_fields|assumption].
+  - apply Ok_inj in H. subst s'. now apply names_sorted_set_bookmark.
+  - destruct (edit s ws c) eqn:E; [|discriminate]. apply Ok_inj in H. subst s'. eapply names_sorted_edit; eassumption.
+  - unfold check_out in H.
+    destruct (write_commit_view s (fresh_commit (s_g s) [c] 0 true) None) as [Eb [Ew _]].
+    destruct (write_commit s (fresh_commit (s_g s) [c] 0 true) None) as [s1 n] eqn:EW. cbn [fst] in *.
+    destruct (edit s1 ws n) eqn:E; [|discriminate]. apply Ok_inj in H. subst s'.
+    eapply names_sorted_edit; [|eassumption]. now apply (names_same s).
+  - apply Ok_inj in H. subst s'. unfold remove_workspace, names_sorted. cbn [set_view s_v v_bms v_wcs].
+    rewrite maybe_abandon_bms, maybe_abandon_wcs. destruct Ns as [A B]. split; [assumption|now apply nadel_sorted].
+  - destruct (s_pm s); [|discriminate]. apply Ok_inj in H. subst s'.
+    apply (names_same s); [apply normalize_fields|apply normalize_fields|assumption].
+Qed.
+
+Lemma step_names_record s o s' : record_op_okb s o = true -> names_sorted s -> step s o = Ok s' -> names_sorted s'.
+Proof.
+  intros G Ns H. destruct o; cbn [record_op_okb] in G; try discriminate; cbn [step] in H.
+  - destruct (old =? 0); [discriminate|].
+    destruct (match ps with Some l => l | None => c_parents (getc (s_g s) old) end); [discriminate|].
+    apply Ok_inj in H. subst s'. apply (names_same s); [apply write_commit_view|apply write_commit_view|assumption].
+  - destruct (old =? 0); [discriminate|]. apply Ok_inj in H. now subst s'.
+  - destruct (old =? 0); [discriminate|]. apply Ok_inj in H. now subst s'.
+  - destruct (old =? 0); [discriminate|]. apply Ok_inj in H. now subst s'.
+  - destruct (old =? 0); [discriminate|]. apply Ok_inj in H. now subst s'.
+Qed.
+
+Inductive reach_all2 : state -> Prop :=
+| ra2_init : reach_all2 init_state
+| ra2_step s o s' : reach_all2 s -> op_okb2 s o = true -> step s o = Ok s' -> reach_all2 s'.
+
+Theorem reach_all2_inv s : reach_all2 s -> J s /\ bms_odd s /\ names_sorted s.
+Proof.
+  induction 1 as [|s o s' _ [Js [Os Ns]] G H].
+  - split; [apply J_init|]. split; [intros name t []|]. split; exact I.
+  - destruct o; cbn [op_okb2] in G.
+    all: try (apply orb_true_iff in G; destruct G as [G|G];
+              [split; [eapply J_step_basic; eassumption|]; split;
+               [pose proof (step_bms_basic _ _ _ G H) as B; cbn beta iota in B; unfold bms_odd; rewrite B; exact Os
+               |eapply step_names_basic; eassumption]
+              |split; [eapply J_step_record; eassumption|]; split;
+               [unfold bms_odd; rewrite (step_bms_record _ _ _ G H); exact Os
+               |eapply step_names_record; eassumption]]).
+    + apply andb_true_iff in G. destruct G as [G Od]. split; [eapply J_step_basic; eassumption|].
+      split; [|eapply step_names_basic; eassumption].
+      cbn [step] in H. apply Ok_inj in H. subst s'. now apply bms_odd_set.
+    + cbn [step] in H. change (rebase_descendants s o) with (rebase_descendants_with order_commits_for_rebase s o) in H.
+      destruct (J_rebase_descendants order_commits_for_rebase s o s' Js Os) as [A [B _]]; [|exact H|].
+      * intros sB EB. apply (refs_clear_after _ _ _ _ Js Os Ns EB).
+      * split; [assumption|]. split; [assumption|].
+        rewrite rebase_descendants_split in H.
+        destruct (rebase_before_heads order_commits_for_rebase s o) as [sB| | |] eqn:EB; cbn [bind] in H; try discriminate.
+        apply Ok_inj in H. subst s'. destruct (refs_clear_after _ _ _ _ Js Os Ns EB) as [_ NB].
+        unfold names_sorted. cbn [set_pm s_v]. now rewrite update_heads_bms, update_heads_wcs.
+Qed.
+
+Theorem commit_inv_all2 s s' :
+  reach_all2 s -> step s OCommit = Ok s' -> Inv (pg (s_g s')) (s_v s').
+Proof.
+  intros R H. destruct (reach_all2_inv s R) as [Js _]. cbn [step] in H.
+  destruct (s_pm s); [|discriminate]. apply Ok_inj in H. subst s'. now apply commit_Inv.
+Qed.
